@@ -750,6 +750,34 @@ fn examinee_bodies() -> Vec<Block> {
     out
 }
 
+// ---- f-string parts whose conversion is a host call --------------------------
+// (seeded change C08-8: all part expressions lowered first, the `to_string` calls of the
+// parts emitted afterwards). Built-in parts convert silently; a part of the harness's
+// copy type K converts through a registered, logging `to_string`.
+
+fn fstring_host_bodies() -> Vec<Block> {
+    let lit = |v: i128| E::Int(v, None, IntTy::U32);
+    let k = |v: i128| E::Host("mkk".into(), vec![lit(v)]);
+    let part = |e: E| FPart::Expr(e);
+    let text = |t: &str| FPart::Text(t.into());
+    let slen = |f: E| E::Call("slen".into(), vec![f]);
+    let mut out = vec![];
+    let forms: Vec<Vec<FPart>> = vec![
+        vec![part(k(1)), part(em()), part(k(2)), part(em())],
+        vec![part(k(1)), text("-"), part(k(2))],
+        vec![part(em()), part(k(1))],
+        vec![part(k(1)), part(em())],
+        vec![part(k(1)), text(" and "), part(E::Host("es".into(), vec![E::Int(0, None, I32)])), part(k(3))],
+        vec![part(var("t")), text(" and "), part(em()), part(var("t"))],
+        vec![part(k(1)), part(E::FStr(vec![part(k(2)), part(em())])), part(k(3))],
+        vec![part(E::If(Box::new(ebm(0)), blk(vec![], Some(k(4))), Some(blk(vec![], Some(k(5)))))), part(em())],
+    ];
+    for f in forms {
+        out.push(blk(vec![S::Let("t".into(), None, k(7))], Some(slen(E::FStr(f)))));
+    }
+    out
+}
+
 pub fn entry(name: &str, body: Block) -> Func {
     Func {
         name: name.into(),
@@ -775,6 +803,7 @@ pub fn all_bodies(tier: Tier) -> Vec<Block> {
     }
     out.extend(unit_bodies());
     out.extend(examinee_bodies());
+    out.extend(fstring_host_bodies());
     for b in &mut out {
         let mut k = 0;
         number_block(b, &mut k);
